@@ -20,7 +20,8 @@ core.register("C05", "Props.C05", "theories/Props/C05.vo",
               ["C05_refuted_gap", "C05_recovers_outside_known", "C05_process_crash_is_image"])
 core.register("C07", "Props.C07", "theories/Props/C07.vo",
               ["C07_refuted_live", "C07_reads_total_outside_known", "C07_boundary_in_force_is_not_enough",
-               "C07_reads_total_outside_known_L2", "C07_restart_reads_total", "C07_restart_continue", "C07_restart_refuted"])
+               "C07_reads_total_outside_known_L2", "C07_restart_reads_total", "C07_restart_continue", "C07_restart_refuted",
+               "C07_restart_reads_total_strong", "C07_restarts_reads_total", "C07_restarts_nonvacuous"])
 
 
 # ------------------------------------------------------------------ running traces
